@@ -1,5 +1,6 @@
 import TpmVerif.Base.Bytes
 import TpmVerif.Crypto.Sha
+import TpmVerif.Crypto.Aes
 import TpmVerif.Gen.Cmds
 /-!
   Authorization of a TPM 2 command (`SessionProcess.c`: `ParseSessionBuffer`, `CheckAuthSession`, `CheckPWAuthSession`,
@@ -45,6 +46,7 @@ structure Session where
   needAuth : Bool := false     -- isAuthValueNeeded (PolicyAuthValue)
   needPw : Bool := false       -- isPasswordNeeded (PolicyPassword)
   pcc : Nat := 0               -- commandCode fixed by PolicyCommandCode, 0 = none
+  sym : Nat := 0               -- parameter encryption: 0 none, 1 XOR with SHA-256, 2 AES-128-CFB
   deriving Repr
 
 structure St where
@@ -247,6 +249,30 @@ def authorize (st : St) (c : Cmd) (attr : Nat) : Verdict :=
 
 /-- session key of a session started with `bind` (no salt): KDFa(authValue(bind), "ATH", nonceTPM, nonceCaller) -/
 def sessionKey (bindAuth nonceTPM nonceCaller : Bytes) : Bytes := kdfa sha256 bindAuth "ATH" nonceTPM nonceCaller 256
+
+/-- KDFe (SP 800-56A concatenation KDF as TPM 2 uses it): H(counter ‖ Z ‖ label ‖ 00 ‖ partyU ‖ partyV), one block of SHA-256 -/
+def kdfe256 (z : Bytes) (label : String) (partyU partyV : Bytes) : Bytes :=
+  hash sha256 (be32 1 ++ z ++ label.toUTF8.toList ++ [0] ++ partyU ++ partyV)
+
+/-- the salt of a session salted against an ECC P-256 key: the caller's ephemeral scalar `d`, the key's public point -/
+def eccSalt (d kx ky : Nat) : Option Bytes :=
+  match P256.mul d (some (kx, ky)), P256.mul d (some (P256.gx, P256.gy)) with
+  | some (zx, _), some (ex, _) => some (kdfe256 (natToBytes zx 32) "SECRET" (natToBytes ex 32) (natToBytes kx 32))
+  | _, _ => none
+
+/-- session key with bind and/or salt: KDFa(authValue(bind) ‖ salt, "ATH", nonceTPM, nonceCaller); empty when neither is there -/
+def sessionKeyWith (bindAuth salt nonceTPM nonceCaller : Bytes) : Bytes :=
+  if bindAuth = [] ∧ salt = [] then [] else kdfa sha256 (bindAuth ++ salt) "ATH" nonceTPM nonceCaller 256
+
+/-- parameter encryption/decryption of the session protocol: XOR obfuscation with a KDFa mask, or AES-128-CFB with
+    KDFa("CFB") giving key ‖ IV. `key` = sessionKey ‖ authValue as for the HMAC. -/
+def paramCrypt (sym : Nat) (key nonceNewer nonceOlder data : Bytes) (encrypt : Bool) : Bytes :=
+  if sym = 1 then List.zipWith (· ^^^ ·) data (kdfa sha256 key "XOR" nonceNewer nonceOlder (data.length * 8))
+  else if sym = 2 then
+    let ki := kdfa sha256 key "CFB" nonceNewer nonceOlder 256
+    let E := aesEncryptBlock (ki.take 16)
+    if encrypt then (cfbEncrypt E (ki.drop 16) data).1 else (cfbDecrypt E (ki.drop 16) data).1
+  else data
 
 /-- the response HMAC the caller must see: HMAC(key, rpHash ‖ nonceTPM(new) ‖ nonceCaller ‖ attrs) -/
 def expectedRspHmac (key : Bytes) (cc : Nat) (rparams nonceTPMnew nonceCaller : Bytes) (attrs : Nat) : Bytes :=
